@@ -28,6 +28,8 @@ AsciiPunct == {"!", "\"", "#", "$", "%", "&", "'", "(", ")", "*", "+", ",", "-",
 Letters == {"a", "b", "c"}                       \* the letters of the raw alphabets
 
 At(r, i) == IF i >= 1 /\ i <= Len(r) THEN r[i] ELSE ""
+RECURSIVE RunIn(_, _, _)
+RunIn(r, i, S) == IF At(r, i) \in S THEN 1 + RunIn(r, i + 1, S) ELSE 0
 RECURSIVE RunLen(_, _, _)
 RunLen(r, i, c) == IF At(r, i) = c THEN 1 + RunLen(r, i + 1, c) ELSE 0
 
@@ -54,13 +56,31 @@ AttrRest(r, i) == IF At(r, i) \in (Letters \cup {"_", ":", ".", "-"}) THEN 1 + A
 AttrName(r, i) == IF At(r, i) \in (Letters \cup {"_", ":"}) THEN 1 + AttrRest(r, i + 1) ELSE 0
 RECURSIVE AfterAttrs(_, _)
 AfterAttrs(r, i) == LET sp == SpaceRun(r, i) nm == AttrName(r, i + sp) IN IF sp > 0 /\ nm > 0 THEN AfterAttrs(r, i + sp + nm) ELSE i
+(* tag name: a letter, then letters, digits or hyphens *)
+TagName(r, i) == IF At(r, i) \in Letters THEN 1 + RunIn(r, i + 1, Letters \cup {"-", "2", "3", "4", "5"}) ELSE 0
 HtmlTagEnd(r, i) ==
     IF At(r, i + 1) = "/" THEN
-        LET nm == LetterRun(r, i + 2) k == i + 2 + nm + SpaceRun(r, i + 2 + nm) IN IF nm > 0 /\ At(r, k) = ">" THEN k ELSE 0
-    ELSE LET nm == LetterRun(r, i + 1)
+        LET nm == TagName(r, i + 2) k == i + 2 + nm + SpaceRun(r, i + 2 + nm) IN IF nm > 0 /\ At(r, k) = ">" THEN k ELSE 0
+    ELSE LET nm == TagName(r, i + 1)
              a == AfterAttrs(r, i + 1 + nm)
              k == a + SpaceRun(r, a) IN
          IF nm = 0 THEN 0 ELSE IF At(r, k) = ">" THEN k ELSE IF At(r, k) = "/" /\ At(r, k + 1) = ">" THEN k + 1 ELSE 0
+
+(* the other forms of raw HTML: comment "<!--" text "-->" (the text does not start with ">" or "->", does not end with "-" and
+   holds no "--"; it may be empty), processing instruction "<?" ... "?>", declaration "<!" letter ... ">" *)
+FirstAt(r, from, a, b) ==                      \* least q >= from with r[q] = a and r[q + 1] = b (b = "" : any), or 0
+    LET S == {q \in from..Len(r) : r[q] = a /\ (b = "" \/ At(r, q + 1) = b)} IN IF S = {} THEN 0 ELSE CHOOSE q \in S : \A q2 \in S : q <= q2
+HtmlOtherEnd(r, i) ==
+    IF At(r, i + 1) = "!" /\ At(r, i + 2) = "-" /\ At(r, i + 3) = "-" THEN
+        LET q == FirstAt(r, i + 4, "-", "-") IN
+        IF q = 0 \/ At(r, q + 2) # ">" THEN 0
+        ELSE IF q = i + 4 THEN q + 2                                                  \* "<!---->"
+        ELSE IF At(r, i + 4) = ">" \/ (At(r, i + 4) = "-" /\ At(r, i + 5) = ">") THEN 0
+        ELSE q + 2
+    ELSE IF At(r, i + 1) = "?" THEN
+        LET q == FirstAt(r, i + 2, "?", ">") IN IF q = 0 THEN 0 ELSE q + 1
+    ELSE IF At(r, i + 1) = "!" /\ At(r, i + 2) \in Letters THEN FirstAt(r, i + 3, ">", "")
+    ELSE 0
 
 (* entity and numeric character references.  The table holds the HTML5 names that can be spelled with the letters of the raw
    alphabets (generated from the WHATWG table by tools/gen_entity_table.py, which the harness re-runs and compares); a character
@@ -70,8 +90,6 @@ EntLetters == {"m", "p", "l", "t", "x"}            \* further letters of the ent
 DigitVal == "0" :> 0 @@ "1" :> 1 @@ "2" :> 2 @@ "3" :> 3 @@ "4" :> 4 @@ "5" :> 5 @@ "6" :> 6 @@ "7" :> 7 @@ "8" :> 8 @@ "9" :> 9
 HexVal == DigitVal @@ "a" :> 10 @@ "b" :> 11 @@ "c" :> 12 @@ "d" :> 13 @@ "e" :> 14 @@ "f" :> 15 @@ "A" :> 10 @@ "B" :> 11 @@ "C" :> 12 @@ "D" :> 13 @@ "E" :> 14 @@ "F" :> 15
 NameCh == Letters \cup EntLetters \cup DOMAIN DigitVal
-RECURSIVE RunIn(_, _, _)
-RunIn(r, i, S) == IF At(r, i) \in S THEN 1 + RunIn(r, i + 1, S) ELSE 0
 (* position of the closing ";" or 0 *)
 EntityEnd(r, i) ==
     IF At(r, i + 1) = "#" THEN
@@ -109,6 +127,7 @@ ScanFrom(r, i) ==
         ELSE [q \in 1..n |-> Seg("t", i + q - 1, i + q - 1)] \o ScanFrom(r, i + n)
     ELSE IF r[i] = "<" /\ AutolinkEnd(r, i) > 0 THEN <<Seg("auto", i, AutolinkEnd(r, i))>> \o ScanFrom(r, AutolinkEnd(r, i) + 1)
     ELSE IF r[i] = "<" /\ HtmlTagEnd(r, i) > 0 THEN <<Seg("html", i, HtmlTagEnd(r, i))>> \o ScanFrom(r, HtmlTagEnd(r, i) + 1)
+    ELSE IF r[i] = "<" /\ HtmlOtherEnd(r, i) > 0 THEN <<Seg("html", i, HtmlOtherEnd(r, i))>> \o ScanFrom(r, HtmlOtherEnd(r, i) + 1)
     ELSE IF r[i] = "&" /\ EntityEnd(r, i) > 0 THEN <<Seg("ent", i, EntityEnd(r, i))>> \o ScanFrom(r, EntityEnd(r, i) + 1)
     ELSE <<Seg("t", i, i)>> \o ScanFrom(r, i + 1)
 Scan(r) == ScanFrom(r, 1)
@@ -132,6 +151,8 @@ I2 == {"a", "*", "`", "<", ">", "/"}
 I3 == {"a", ":", "<", ">", "*", "`"}
 I4 == {"a", " ", "`", "<", ">", "\\", "_"}
 I5 == {"a", ":", "<", ">", "\\"}                 \* backslashes before autolinks (the shortest, "\\<aa:>" behind an escaped backslash, has 7 characters)
+I6 == {"<", "!", "-", ">", "a"}                  \* comments and declarations
+I7 == {"<", "?", ">", "a", "!"}                  \* processing instructions
 E1 == {"&", "#", "3", "5", ";", "a", "x"}        \* numeric references, decimal and hexadecimal
 E2 == {"&", "a", "m", "p", ";", "l", "t"}        \* named references
 E3 == {"&", "#", "4", "2", ";", "*"}             \* a "*" written as a reference is no delimiter
